@@ -26,10 +26,6 @@ Proof.
   rewrite IH. reflexivity.
 Qed.
 
-(* centred value of column c in row k *)
-Definition centred (rows : list (list R)) (mu : list R) (k c : nat) : R :=
-  nth c (nth k rows []) 0 - nth c mu 0.
-
 Lemma cov_entry_R rows mu i j :
   cov_entry ROps rows mu i j
   = sigma (length rows) (fun k => centred rows mu k i * centred rows mu k j)
@@ -62,6 +58,9 @@ Lemma cov_some ncols rows C : cov ROps ncols rows = Some C ->
 Proof.
   unfold cov. destruct rows as [|r0 rs]; [discriminate|]. intros [= <-]. split; [discriminate | reflexivity].
 Qed.
+
+Lemma sigma_scal_r n c f : sigma n (fun i => f i * c) = sigma n f * c.
+Proof. rewrite (sigma_ext n _ (fun i => c * f i)) by (intros; ring). rewrite sigma_scal. ring. Qed.
 
 Section Cov.
   Variables (ncols : nat) (rows : list (list R)) (C : list (list R)).
@@ -98,13 +97,17 @@ Section Cov.
       (fun b => / (INR m - 1) * sigma m (fun k => sigma ncols (fun a =>
                    centred rows mu k a * w a * (centred rows mu k b * w b))))).
     - rewrite sigma_scal. f_equal. rewrite sigma_swap. apply sigma_ext. intros k _.
-      rewrite <- sigma_scal. apply sigma_ext. intros b _.
-      rewrite Rmult_comm, <- sigma_scal. apply sigma_ext. intros a _. ring.
+      set (s := sigma ncols (fun a => centred rows mu k a * w a)).
+      rewrite (sigma_ext ncols _ (fun b => s * (centred rows mu k b * w b))).
+      + rewrite sigma_scal. reflexivity.
+      + intros b _. unfold s. rewrite <- sigma_scal_r. reflexivity.
     - intros b Hb. rewrite sigma_swap.
       rewrite <- sigma_scal. apply sigma_ext. intros a Ha.
       rewrite cov_entry_form by assumption. unfold Rdiv.
-      rewrite (Rmult_comm (sigma m _)), !Rmult_assoc. f_equal.
-      rewrite Rmult_comm, <- sigma_scal. apply sigma_ext. intros k _. ring.
+      rewrite (sigma_ext m (fun k => centred rows mu k a * w a * (centred rows mu k b * w b))
+                         (fun k => (w a * w b) * (centred rows mu k a * centred rows mu k b)))
+        by (intros k _; ring).
+      rewrite sigma_scal. ring.
   Qed.
 
   Lemma cov_psd : (2 <= m)%nat -> psd ncols C.
